@@ -213,6 +213,16 @@ def build_coq(targets):
     return rc == 0, out
 
 
+def coqchk(module, timeout=900):
+    """independent re-check of the compiled module and everything it depends on (coqchk -o); returns (ok, summary)"""
+    rc, out = sh(["coqchk", "-silent", "-o", "-Q", COQ, "HL", f"HL.{module}"], cwd=COQ, timeout=timeout)
+    m = re.search(r"\* Axioms:\s*(.*?)\n\s*\n", out, flags=re.S)
+    ax = re.sub(r"\s+", " ", m.group(1)).strip() if m else None
+    clean = rc == 0 and ax == "<none>" and all(f"{k}: <none>" in re.sub(r"\s+", " ", out) for k in
+                                               ("type-in-type", "unsafe (co)fixpoints", "positivity is assumed"))
+    return clean, (f"coqchk -o HL.{module}: Axioms: {ax}" if rc == 0 else f"coqchk failed ({rc}): {out[-600:]}")
+
+
 FORBIDDEN = re.compile(r"\b(Admitted|admit|Axiom|Axioms|Parameter|Parameters|Conjecture|Conjectures|bypass_check)\b"
                        r"|Unset Guard|Unset Positivity|Unset Universe|Admit Obligations|type-in-type|impredicative-set")
 SECTION_ONLY = re.compile(r"^\s*(Variable|Variables|Hypothesis|Hypotheses|Context)\b")
